@@ -98,7 +98,12 @@ Definition guards_of_gen : guards :=
      g_restore_keeps_nosig := has_scall Lifecycle.restore_terminal_calls "!withoutSignals" "ignoreSignals=0";
      g_rz_guarded := all_guarded (recvs_on "listenForResize" "sig") && all_guarded (sends_on "checkResize" "p.errs") &&
                      no_bare_send "checkResize" && no_bare_send "listenForResize" && send_is_guarded;
-     g_sig_stays := negb (str_in "returns-after-forward" facts)
+     g_sig_stays := negb (str_in "returns-after-forward" facts);
+     g_restore_unignores_first :=
+       match Lifecycle.restore_terminal_calls with
+       | c :: _ => sc_call c =? "ignoreSignals=0"
+       | [] => false
+       end
   |}.
 
 (* the API entry points behave as the C13 statement needs *)
